@@ -15,7 +15,7 @@ SHRINK = None
 
 def gen(rng, i, tier):
     n = int(rng.integers(4, 50 if tier == "quick" else 400))
-    x, gk = grid(rng, n=n)
+    x, gk = grid(rng, n=n, extra=0.12, extra_kinds=["crossing", "negative"])
     y, _ = data(rng, x)
     dy = unc(rng, x)
     xo, _ = grid(rng, n=int(rng.integers(1, 8)) + 1)
